@@ -26,7 +26,7 @@ META = {
 
 def _ncls(n):
     n = str(n or "")
-    for k in ("plain", "fixraw", "raw", "secret", "fixkey", "edge", "pow2", "_\u00c4", "big", "empty", "listfile", "attributes", "signature"):
+    for k in ("plain", "fixraw", "raw", "secret", "fixkey", "edge", "pow2", "sp\\s", "lit128k", "mod\\", "_\u00c4", "big", "empty", "listfile", "attributes", "signature"):
         if k in n:
             return k
     return n
@@ -38,7 +38,7 @@ def sig(b):
     rb = b.get("rebuild") or {}
     o = rb.get("opts") or rec.get("opts") or {}
     return {"ev": b.get("ev"), "why": str(b.get("why", "")).strip().strip('"'), "ver": "v12" if r.get("ver", 1) <= 2 else "v34",
-            "empty": bool(r.get("empty")), "sigfile": bool(r.get("sigfile")), "sbs": r.get("sbs", -1), "bs": o.get("bs", -1), "edge": bool(r.get("edge")), "pow": r.get("pow", 0), "skipSig": bool(o.get("skipSig")), "n": _ncls(rec.get("n")), "comp": o.get("comp", ""), "skipEnc": bool(o.get("skipEnc")), "verify": bool(o.get("verify")),
+            "empty": bool(r.get("empty")), "sigfile": bool(r.get("sigfile")), "sbs": r.get("sbs", -1), "bs": o.get("bs", -1), "edge": bool(r.get("edge")), "pow": r.get("pow", 0), "prov": r.get("prov", "built"), "skipSig": bool(o.get("skipSig")), "n": _ncls(rec.get("n")), "comp": o.get("comp", ""), "skipEnc": bool(o.get("skipEnc")), "verify": bool(o.get("verify")),
             "res": str(rec.get("res", "")).split(":")[0], "msg": rec.get("msg", "")}
 
 
